@@ -368,6 +368,25 @@ M_C04(pre, a, obs, post) ==
 \* ------------------------------------------------------------------ C05 (history part): a party that tracks permissions from the
 \* change notices it receives ends up with what the authoritative topic holds: every {pres what=acs} seen inside a group topic,
 \* applied to the subject's permissions as the live topic held them BEFORE the step, yields what it holds AFTER the step.
+\* ... and no change goes unannounced (Topic.notifySubChange -> presSubsOnline "acs"): when a {sub} / {set sub} changes what the live
+\* topic holds for a subject (a subscription that was absent or flagged deleted counts as N/N, which is what its removal announced),
+\* every OTHER user's session that stays attached to the topic the ordinary way with A or S in its effective mode - the parties the
+\* server addresses the notice to (filterIn = ModeCSharer, excludeUser = subject, skip = the requesting session) - receives a
+\* {pres what=acs src=subject} inside the topic.  Without it a tracker keeps N/N for a p2p peer who unsubscribed and came back.
+HeldModes(p) == IF p.in /\ ~p.deleted THEN <<M(p.want), M(p.given)>> ELSE <<{}, {}>>
+IsSharerIn(S, t, u) == S.cache[t].per[u].in /\ ~S.cache[t].per[u].deleted /\ Eff(S.cache[t].per[u]) \cap {"A", "S"} # {}
+M_C05_Announced(pre, a, obs, post) ==
+  IF ~IsReq(a) \/ a.a \notin {"Sub", "SetSelf", "SetOther"} THEN {}
+  ELSE LET t == a.t IN
+  IF ~(pre.cache[t].loaded /\ post.cache[t].loaded) THEN {}
+  ELSE UNION {
+    LET p0 == pre.cache[t].per[subj]  p1 == post.cache[t].per[subj] IN
+    IF ~(p1.in /\ ~p1.deleted) \/ HeldModes(p0) = HeldModes(p1) THEN {}
+    ELSE LET rcpt == {x \in AttOf(post.cache[t]) : x \in AttOf(pre.cache[t]) /\ ~x.chan /\ x.s # a.s /\ x.u # subj
+                                                     /\ IsSharerIn(pre, t, x.u) /\ IsSharerIn(post, t, x.u)}
+         IN If(\A x \in rcpt : \E f \in obs.acs : f.s = x.s /\ f.t = t /\ f.src = subj, "ChangeAnnouncedToAttachedSharers")
+    : subj \in Users }
+
 M_C05(pre, a, obs, post) ==
   UNION {
     LET f == ff
@@ -383,6 +402,7 @@ M_C05(pre, a, obs, post) ==
             ELSE If(w.ok /\ g.ok, "NoticeIsWellFormed")
                  \cup If(w.m = M(p1.want) /\ g.m = M(p1.given), "FollowerOfNoticesMatchesTopic")
     : ff \in obs.acs }
+  \cup M_C05_Announced(pre, a, obs, post)
 
 \* ------------------------------------------------------------------ C10 (counter clause) and C14 (symmetry clause) on the projected state
 \* (all sessions of the topic-level walks are foreground sessions)
